@@ -118,6 +118,7 @@ Section Main.
       (if sp_oscore_drop cfg req then [[]] else []) ++
       (if sp_long_token req then sp_reject mc req else []) ++
       (if mc && (ty =? NR_CON) then [[]] else []) ++
+      (if sp_async cfg req then [] :: (if ty =? NR_CON then [[dp_eack req]] else []) else []) ++
       (if (ty =? NR_NON) && sp_bad_options cfg req then sp_reject mc req else []) ++
       flat_map (fun e => if sp_applies cfg mc req e then sp_emit cfg mc req e else []) dp_all_errs ++
       (if sp_blocked cfg mc req then [] else sp_handler_outs cfg h mc req).
@@ -140,17 +141,24 @@ Section Main.
       left. reflexivity.
     Qed.
 
+    Lemma in_async : forall x, sp_async cfg req = true ->
+      In x ([] :: (if ty =? NR_CON then [[dp_eack req]] else [])) -> In x outs.
+    Proof.
+      intros x H Hx. rewrite outs_request, H. do 3 (apply in_or_app; right). apply in_or_app. left.
+      exact Hx.
+    Qed.
+
     Lemma in_non_bad : forall x, (ty =? NR_NON) && sp_bad_options cfg req = true ->
       In x (sp_reject mc req) -> In x outs.
     Proof.
-      intros x H Hx. rewrite outs_request, H. do 3 (apply in_or_app; right). apply in_or_app. left.
+      intros x H Hx. rewrite outs_request, H. do 4 (apply in_or_app; right). apply in_or_app. left.
       exact Hx.
     Qed.
 
     Lemma in_err : forall e x, sp_applies cfg mc req e = true -> In x (sp_emit cfg mc req e) ->
       In x outs.
     Proof.
-      intros e x H Hx. rewrite outs_request. do 4 (apply in_or_app; right). apply in_or_app. left.
+      intros e x H Hx. rewrite outs_request. do 5 (apply in_or_app; right). apply in_or_app. left.
       apply in_flat_map. exists e. split; [destruct e; cbn; tauto|]. rewrite H. exact Hx.
     Qed.
 
@@ -162,7 +170,7 @@ Section Main.
 
     Lemma in_handler : sp_blocked cfg mc req = false -> In (sp_handler_out cfg h mc req) outs.
     Proof.
-      intros H. rewrite outs_request, H. do 5 (apply in_or_app; right). left. reflexivity.
+      intros H. rewrite outs_request, H. do 6 (apply in_or_app; right). left. reflexivity.
     Qed.
 
     (* ---- the option edits do not change what the checks look at ---- *)
@@ -207,12 +215,12 @@ Section Main.
     Lemma run_allowed :
       sp_found cfg req = true ->
       sp_oscore_drop cfg req = false -> sp_long_token req = false ->
-      mc && (ty =? NR_CON) = false ->
+      mc && (ty =? NR_CON) = false -> sp_async cfg req = false ->
       sp_applies cfg mc req E402 = false -> sp_applies cfg mc req E505 = false ->
       sp_applies cfg mc req E508 = false -> sp_applies cfg mc req E400 = false ->
       In (dp_run cfg h mc (sp_req' cfg req) (sp_target cfg req)) outs.
     Proof.
-      intros Hf Hos Hlt Hmc H402 H505 H508 H400.
+      intros Hf Hos Hlt Hmc Has H402 H505 H508 H400.
       assert (H404 : sp_applies cfg mc req E404 = false).
       { cbn [sp_applies]. rewrite Hf. cbn [negb]. now rewrite andb_false_r. }
       assert (H202 : sp_applies cfg mc req E202 = false).
@@ -247,7 +255,7 @@ Section Main.
         destruct (c_mpr cfg), mc, (nr_flag (dp_target_flags t) NR_F_HAS_MCAST); cbn in *; congruence. }
       (* the handler runs *)
       change (dp_invoke cfg h mc (sp_req' cfg req) t) with (sp_handler_out cfg h mc req).
-      apply in_handler. unfold sp_blocked. fold ty. rewrite Hos, Hlt, Hmc. cbn [orb].
+      apply in_handler. unfold sp_blocked. fold ty. rewrite Hos, Hlt, Hmc, Has. cbn [orb].
       unfold dp_all_errs. cbn [existsb]. rewrite H402, H505, H508, H400, H404, H202. cbn [orb].
       cbn [sp_applies]. fold t. fold code. fold opts. rewrite Hf, E1, E2, E3, E4. cbn [andb orb].
       rewrite orb_false_r.
@@ -258,13 +266,13 @@ Section Main.
     (* ---- look-up ---- *)
     Lemma lookup_allowed :
       sp_oscore_drop cfg req = false -> sp_long_token req = false ->
-      mc && (ty =? NR_CON) = false ->
+      mc && (ty =? NR_CON) = false -> sp_async cfg req = false ->
       sp_applies cfg mc req E402 = false -> sp_applies cfg mc req E505 = false ->
       sp_applies cfg mc req E508 = false -> sp_applies cfg mc req E400 = false ->
       (sp_forward cfg req = true -> sp_has_proxy cfg = true) ->
       In (dp_hr_lookup cfg h mc (sp_req' cfg req) (sp_forward cfg req)) outs.
     Proof.
-      intros Hos Hlt Hmc H402 H505 H508 H400 Hfp.
+      intros Hos Hlt Hmc Has H402 H505 H508 H400 Hfp.
       unfold dp_hr_lookup.
       replace (m_code (sp_req' cfg req)) with code by reflexivity.
       replace (m_opts (sp_req' cfg req)) with (sp_adjusted cfg req) by reflexivity.
@@ -293,12 +301,12 @@ Section Main.
     (* ---- Hop-Limit ---- *)
     Lemma cont_allowed :
       sp_oscore_drop cfg req = false -> sp_long_token req = false ->
-      mc && (ty =? NR_CON) = false ->
+      mc && (ty =? NR_CON) = false -> sp_async cfg req = false ->
       sp_applies cfg mc req E402 = false -> sp_applies cfg mc req E505 = false ->
       (sp_forward cfg req = true -> sp_has_proxy cfg = true) ->
       In (dp_hr_cont cfg h mc req1 (sp_forward cfg req) (sp_mine cfg req)) outs.
     Proof.
-      intros Hos Hlt Hmc H402 H505 Hfp.
+      intros Hos Hlt Hmc Has H402 H505 Hfp.
       unfold dp_hr_cont, req1. cbn [m_opts m_code m_type m_mid m_token m_payload].
       pose proof (fix_find DP_HOP_LIMIT ltac:(discriminate)) as Hh.
       destruct (sp_mine cfg req) eqn:Em.
@@ -345,6 +353,13 @@ Section Main.
         destruct (ty =? NR_NON) eqn:E1; [|discriminate].
         destruct (ty =? NR_CON) eqn:E0; [|reflexivity].
         unfold NR_CON, NR_NON in *. apply Z.eqb_eq in E1. apply Z.eqb_eq in E0. congruence. }
+      change (dp_async_pending cfg (mkMsg ty code (m_mid req) (m_token req) (sp_fix_block2 req) (m_payload req)))
+        with (sp_async cfg req).
+      destruct (sp_async cfg req) eqn:Has.
+      { apply in_async; [exact Has|].
+        change (dp_eack (mkMsg ty code (m_mid req) (m_token req) (sp_fix_block2 req) (m_payload req)))
+          with (dp_eack req).
+        destruct (ty =? NR_CON); [right; left; reflexivity|left; reflexivity]. }
       destruct (dp_has DP_PROXY_SCHEME opts && negb (dp_has DP_URI_HOST opts)) eqn:Eps.
       { apply (in_err E402).
         - cbn [sp_applies]. fold opts. rewrite Eps. now rewrite orb_true_r.
